@@ -883,6 +883,7 @@ func (w *World) requestIDOf(h util.Uint256) (uint64, bool) {
 // Relay offers every transaction the services sent (and that was not offered yet) to the producer's pool.
 type Relayed struct {
 	S        *Sent
+	Desig    []int // designated oracle keys of the producer's ledger when the transaction was offered
 	Err      error
 	Pending  bool
 	Conflict bool
@@ -904,7 +905,7 @@ func (w *World) Relay(reverse bool) []Relayed {
 	}
 	var out []Relayed
 	for _, s := range todo {
-		r := Relayed{S: s, H: w.P.BlockHeight()}
+		r := Relayed{S: s, H: w.P.BlockHeight(), Desig: w.FactsOf(w.P).Desig}
 		if id, ok := respID(s.Tx); ok {
 			r.Pending = pendingOn(w.P, id)
 			r.Conflict = poolHasResponse(w.P.GetMemPool(), id, s.Tx.Hash())
